@@ -46,7 +46,9 @@ class RequirementsTxtParser(BaseParser):
         that may be comments or may be pointers to other requirement files (-r ..._
         """
         return set(
-            line.split("#")[0].strip()
+            # besides comments, drop per-requirement options (`pkg==1.0 --hash=...`)
+            # and the backslash that continues them on the next line
+            line.split("#")[0].split(" --")[0].strip().rstrip("\\").strip()
             for line in lines
             if not line.startswith(("#", "-r "))
         )
